@@ -349,12 +349,13 @@ def build(specs, top, pool=None, cls_suffix=""):
             src = source(vals)
             impl = e.container_execute(src, "/bin/echo %s %%s" % sid, context=HostContext)
         elif kind == "fail":
-            def boom(broker, exc=spec.get("exc", "value"), sid=sid):
+            def boom(broker, exc=spec.get("exc", "value"), sid=sid, msg=spec.get("msg", "")):
+                # "msg": extra text of the exception (e.g. a file name that is not valid UTF-8)
                 if exc == "content":
-                    raise e.ContentException("boom-content-%s" % sid)
+                    raise e.ContentException("boom-content-%s%s" % (sid, msg))
                 if exc == "called":
-                    raise e.CalledProcessError(3, "boom-cmd-%s" % sid, "boom-output")
-                raise ValueError("boom-value-%s" % sid)
+                    raise e.CalledProcessError(3, "boom-cmd-%s%s" % (sid, msg), "boom-output%s" % msg)
+                raise ValueError("boom-value-%s%s" % (sid, msg))
             impl = counted_fn(boom)
         else:
             raise ValueError("unknown kind %r" % kind)
